@@ -28,6 +28,10 @@ func GenCarrier(t *rapid.T, maxBytes int64) Carrier {
 		c.FreezeMs = rapid.SampledFrom([]int{5, 50, 300, 1500}).Draw(t, "freeze")
 	}
 	c.DialDelayMs = rapid.SampledFrom([]int{0, 0, 0, 5, 50, 400}).Draw(t, "dialdelay")
+	if vstat.Thorough() && rapid.IntRange(0, 15).Draw(t, "longgap") == 0 {
+		// an idle gap between carriers that is long, yet far below the one-minute retention
+		c.DialDelayMs = rapid.SampledFrom([]int{3000, 12000, 25000}).Draw(t, "gap")
+	}
 	c.DialFailures = rapid.SampledFrom([]int{0, 0, 0, 1, 3}).Draw(t, "dialfail")
 	pos := func(label string) int64 {
 		switch rapid.IntRange(0, 5).Draw(t, label+"class") {
